@@ -30,7 +30,10 @@ res "demo with change: exit $r2 (expect non-zero)"
 git -C /repo worktree remove --force $W; rm -rf $T
 # now our check on /repo itself
 git -C /repo apply $DST/patch.diff || { res "apply to /repo failed"; exit 7; }
+cp /verif/evidence/$P.json /tmp/seed_evidence_$P.json 2>/dev/null
 (cd /verif && ./check $P $TIER > $DST/check_$TIER.log 2>&1); rc=$?
+cp /verif/evidence/$P.json $DST/evidence_$TIER.json 2>/dev/null
+cp /tmp/seed_evidence_$P.json /verif/evidence/$P.json 2>/dev/null
 git -C /repo checkout -- . 
 res "check $P $TIER with change: exit $rc; $(grep -c '^VIOLATION' $DST/check_$TIER.log) VIOLATION lines; $(grep '^VIOLATION' $DST/check_$TIER.log | head -2 | cut -c1-160)"
 git -C /repo status --short | head -3
